@@ -1180,6 +1180,27 @@ pub fn run(session: &Session, prop: &'static RefProp, rule: &str) -> i32 {
         }
     }
     if prop.id == "C12" && !session.stopped() {
+        // selection follows the language's own `==` and the condition's own value: signed zeros and NaN among
+        // many literal arms (a match may be compiled into a table), conditions that compare a variable with itself
+        let mut cases = vec![];
+        let name = "name := (x: float) -> string { return match x { 1.0 => \"one\", 2.0 => \"two\", 3.5 => \"x\", 0.0 => \"zero\", 7.25 => \"y\", => \"other\", }; }; ";
+        let nan = "nanm := (x: float) -> string { return match x { 1.0 => \"one\", 2.0 => \"two\", 3.5 => \"x\", (0.0 / 0.0) => \"nan\", 7.25 => \"y\", => \"other\", }; }; ";
+        let ints = "pick := (x: int|float|string) -> int { return match x { 1 => 10, \"1\" => 20, 1.0 => 30, 2 => 40, -0.0 => 50, => 0, }; }; ";
+        for (text, want) in [
+            (format!("{name}(name(-0.0), name(0.0), name(2.0), name(-2.0))"), "value (\"zero\", \"zero\", \"two\", \"other\")"),
+            (format!("{name}z := *(mut float 0.0); (name(0.0 - z), name(z * -1.0), name(7.25))"), "value (\"zero\", \"zero\", \"y\")"),
+            (format!("{nan}q := *(mut float 0.0); (nanm(q / q), nanm(0.0 / 0.0), nanm(3.5))"), "value (\"other\", \"other\", \"x\")"),
+            (format!("{ints}(pick(1), pick(\"1\"), pick(1.0), pick(2), pick(0.0), pick(-0.0), pick(3))"), "value (10, 20, 30, 40, 50, 50, 0)"),
+            ("m := match -0.0 { 5.0 => 1, 6.0 => 2, 7.0 => 3, 0.0 => 4, => 0, }; m".to_string(), "value 4"),
+            ("f := (x: float) -> (string, string, string, string) { a := if x == x { \"then\" } else { \"else\" }; b := if x != x { \"then\" } else { \"else\" }; y := x; c := if x == y { \"then\" } else { \"else\" }; d := if [x] == [x] { \"then\" } else { \"else\" }; return (a, b, c, d); }; z := *(mut float 0.0); (f(z / z), f(1.5))".to_string(), "value ((\"else\", \"then\", \"else\", \"else\"), (\"then\", \"else\", \"then\", \"then\"))"),
+            ("z := *(mut float 0.0); x := z / z; n := mut 0; while x == x { n += 1; if *n > 2 { break; }; }; k := mut 0; while x != x { k += 1; if *k > 2 { break; }; }; (*n, *k)".to_string(), "value (0, 3)"),
+            ("z := *(mut float 0.0); x := z / z; r := if x == x { 1 } else { 2 }; s := match x { (x) => 1, => 2, }; (r, s)".to_string(), "value (2, 2)"),
+        ] {
+            cases.push(json!({"kind": "probe", "sig": "C12:selection-by-equality", "text": text, "expected": want}));
+        }
+        session.run_enum(prop, cases);
+    }
+    if prop.id == "C12" && !session.stopped() {
         let overlapping = |t: &str| t.contains("int|string") || t.contains("int|float");
         let cases: Vec<Json> = crate::props::c10::membership_cases()
             .into_iter()
